@@ -14,6 +14,9 @@ pub enum Step {
     Between(u32),
     /// evaluate state / next_change / the interval stream over [now, now + window) (at most `take` intervals)
     Observe { window: i64, take: u32 },
+    /// like Observe, with the window ending `delta` seconds after (before, if negative) the injected jump
+    /// (falls back to a 60 s window when that end is not after `now` or the run has no jump)
+    ObserveUntilJump { delta: i64, take: u32 },
 }
 
 #[derive(Serialize, Deserialize, Clone, Debug, PartialEq, Eq)]
